@@ -5,6 +5,8 @@
 -/
 import Robotools.Generated.Fns
 import Robotools.Model.Plan
+import Robotools.Model.Labware
+import Robotools.Proofs.ExecLemmas
 import Mathlib.Tactic.Ring
 import Mathlib.Tactic.Linarith
 import Mathlib.Algebra.Order.Field.Rat
@@ -18,6 +20,14 @@ theorem sum_replicate (k : Nat) (s : Rat) : (List.replicate k s).sum = (k : Rat)
   | succ k ih => rw [List.replicate_succ, List.sum_cons, ih]; push_cast; ring
 
 theorem translated : Generated.partition_volume_translated = true := by decide
+
+/-- Every target of the function translator was translatable in this build (a source form outside the
+    translator's fragment makes this obligation — not only the equalities below — fail). -/
+theorem all_translated :
+    Generated.partition_volume_translated = true ∧ Generated.labware_add_step_translated = true
+    ∧ Generated.labware_remove_step_translated = true ∧ Generated.combine_composition_translated = true
+    ∧ Generated.optimize_partition_by_translated = true ∧ Generated.get_trough_wells_translated = true := by
+  decide
 
 /-- `partition_volume` as it stands in /repo's source (translated statement by statement) is the
     model's `partitionVolume` for every non-negative volume and positive `max_volume` — the domain of
@@ -46,5 +56,164 @@ theorem gen_partition_volume_ok (v M : Rat) (hM : 0 < M) (hv : 0 ≤ v) :
         rw [this, Rat.floor_intCast]
         omega
       simp only [hn, hfloor, gt_iff_lt, sum_replicate]
+
+/-! ### The volume guards of `Labware.add` / `Labware.remove` (C02) -/
+
+/-- The per-well step of `Labware.add` as it stands in the source: refused exactly when the new volume exceeds
+    `max_volume`, otherwise the well holds `cur + volume`. -/
+theorem gen_add_step_spec (cur v M : Rat) :
+    Generated.labware_add_step cur v M
+      = if M < cur + v then .error "VolumeOverflowError" else .ok (cur + v) := by
+  unfold Generated.labware_add_step
+  simp only [gt_iff_lt]
+
+theorem gen_remove_step_spec (cur v m : Rat) :
+    Generated.labware_remove_step cur v m
+      = if cur - v < m then .error "VolumeUnderflowError" else .ok (cur - v) := by
+  unfold Generated.labware_remove_step
+  rfl
+
+/-- The model's `addStep` accepts / refuses exactly as the translated source step does, and writes the same volume. -/
+theorem gen_addStep_ok (L : Labware) (i : Nat) (v : Rat) (c : Option Comp) :
+    (∀ L', L.addStep i v c = .ok L' →
+        Generated.labware_add_step (L.vol i) v L.maxV = .ok (L.vol i + v)
+          ∧ L'.vols = L.vols.set i (L.vol i + v))
+    ∧ (∀ e, L.addStep i v c = .error e →
+        e = .overflow ∧ Generated.labware_add_step (L.vol i) v L.maxV = .error "VolumeOverflowError") := by
+  rw [gen_add_step_spec]
+  constructor
+  · intro L' h
+    obtain ⟨hge, hvols, _⟩ := Labware.addStep_fields h
+    exact ⟨by rw [if_neg hge], hvols⟩
+  · intro e h
+    obtain ⟨he, hlt⟩ := Labware.addStep_error h
+    exact ⟨he, by rw [if_pos hlt]⟩
+
+theorem gen_removeStep_ok (L : Labware) (i : Nat) (v : Rat) :
+    (∀ L', L.removeStep i v = .ok L' →
+        Generated.labware_remove_step (L.vol i) v L.minV = .ok (L.vol i - v)
+          ∧ L'.vols = L.vols.set i (L.vol i - v))
+    ∧ (∀ e, L.removeStep i v = .error e →
+        e = .underflow ∧ Generated.labware_remove_step (L.vol i) v L.minV = .error "VolumeUnderflowError") := by
+  rw [gen_remove_step_spec]
+  constructor
+  · intro L' h
+    obtain ⟨hge, hvols, _⟩ := Labware.removeStep_fields h
+    exact ⟨by rw [if_neg hge], hvols⟩
+  · intro e h
+    obtain ⟨he, hlt⟩ := Labware.removeStep_error h
+    exact ⟨he, by rw [if_pos hlt]⟩
+
+/-! ### `combine_composition` (C05) -/
+
+theorem dset_of_has (d : Py.Dict) (k : String) (x : Rat) (h : Py.dhas d k = true) :
+    Py.dset d k (Py.dget d k + x) = Labware.upsertAdd d k x := by
+  induction d with
+  | nil => simp [Py.dhas] at h
+  | cons p rest ih =>
+    obtain ⟨a, y⟩ := p
+    by_cases hak : a = k
+    · subst hak
+      simp [Py.dset, Py.dget, Labware.upsertAdd, List.lookup]
+    · have hk : (k == a) = false := by simpa using fun e => hak e.symm
+      have ha : (a == k) = false := by simpa using hak
+      have hrest : Py.dhas rest k = true := by
+        simpa [Py.dhas, List.any_cons, ha] using h
+      have hget : Py.dget ((a, y) :: rest) k = Py.dget rest k := by
+        simp [Py.dget, List.lookup, hk]
+      rw [hget]
+      simp only [Py.dset, if_neg hak, Labware.upsertAdd]
+      rw [ih hrest]
+
+theorem dset_of_not_has (d : Py.Dict) (k : String) (x : Rat) (h : Py.dhas d k = false) :
+    Py.dset (Py.dset d k 0) k (Py.dget (Py.dset d k 0) k + x) = Labware.upsertAdd d k x := by
+  induction d with
+  | nil => simp [Py.dset, Py.dget, Labware.upsertAdd, List.lookup]
+  | cons p rest ih =>
+    obtain ⟨a, y⟩ := p
+    have hak : ¬ a = k := by
+      intro e; subst e; simp [Py.dhas] at h
+    have hk : (k == a) = false := by simpa using fun e => hak e.symm
+    have ha : (a == k) = false := by simpa using hak
+    have hrest : Py.dhas rest k = false := by
+      simpa [Py.dhas, List.any_cons, ha] using h
+    have hget : Py.dget ((a, y) :: Py.dset rest k 0) k = Py.dget (Py.dset rest k 0) k := by
+      simp [Py.dget, List.lookup, hk]
+    simp only [Py.dset, if_neg hak, Labware.upsertAdd]
+    rw [hget, ih hrest]
+
+theorem dset_upsert (d : Py.Dict) (k : String) (x : Rat) :
+    (let d1 := if ¬ (Py.dhas d k = true) then Py.dset d k 0 else d
+     Py.dset d1 k (Py.dget d1 k + x)) = Labware.upsertAdd d k x := by
+  cases h : Py.dhas d k with
+  | true => simp only [not_true_eq_false, if_false]; exact dset_of_has d k x h
+  | false => simp only [Bool.false_eq_true, not_false_eq_true, if_true]; exact dset_of_not_has d k x h
+
+/-- `combine_composition` as it stands in the source (dicts read as insertion-ordered association lists) is the
+    model's `Labware.combine` — the function C05's mixing theorems are about. -/
+theorem gen_combine_composition_ok (vA : Rat) (cA : Comp) (vB : Rat) (cB : Comp) :
+    Generated.combine_composition vA cA vB cB = Labware.combine vA cA vB cB := by
+  unfold Generated.combine_composition Labware.combine
+  split
+  · rfl
+  · simp only
+    congr 1
+    generalize (List.map (fun p : String × Rat => (p.1, p.2 * vA)) cA) = vf0
+    induction cB generalizing vf0 with
+    | nil => rfl
+    | cons q rest ih =>
+      obtain ⟨k, f⟩ := q
+      simp only [List.foldl_cons]
+      rw [← ih]
+      congr 1
+      exact dset_upsert vf0 k (f * vB)
+
+/-! ### `optimize_partition_by` (C18) -/
+
+theorem gen_optimize_partition_by_ok (st dt : Bool) (mode : String) :
+    Generated.optimize_partition_by st dt mode
+      = match optimizePartitionBy st dt mode with
+        | none => .error "ValueError"
+        | some true => .ok "destination"
+        | some false => .ok "source" := by
+  unfold Generated.optimize_partition_by optimizePartitionBy
+  by_cases h1 : mode = "auto"
+  · subst h1
+    cases st <;> cases dt <;> simp
+  · by_cases h2 : mode = "source"
+    · subst h2; simp
+    · by_cases h3 : mode = "destination"
+      · subst h3; simp
+      · simp [h1, h2, h3]
+
+/-! ### `get_trough_wells` (C19) -/
+
+theorem gen_get_trough_wells_ok (n : Nat) (ws : List String) :
+    Generated.get_trough_wells (n : Int) ws
+      = match getTroughWells n ws with
+        | none => .error "ValueError"
+        | some l => .ok l := by
+  unfold Generated.get_trough_wells getTroughWells
+  have hn : ¬ ((n : Int) < 0) := by omega
+  rw [if_neg hn]
+  cases ws with
+  | nil => simp
+  | cons w rest =>
+    have hlen : ((List.length (w :: rest) : Nat) : Int) ≠ 0 := by simp; omega
+    simp only [hlen, if_false, List.isEmpty_cons, Bool.false_eq_true]
+    rw [Int.fdiv_eq_ediv_of_nonneg _ (by omega)]
+    simp only [Py.repeat, Int.toNat_natCast]
+    have key : ∀ m : Nat, ((n : Int) / (m : Int) + 1).toNat = n / m + 1 := by
+      intro m
+      have h : (n : Int) / (m : Int) = ((n / m : Nat) : Int) := by norm_cast
+      rw [h]
+      have : (((n / m : Nat) : Int) + 1) = (((n / m + 1 : Nat)) : Int) := by push_cast; ring
+      rw [this, Int.toNat_natCast]
+    rw [key]
+
+theorem gen_get_trough_wells_neg (n : Int) (ws : List String) (h : n < 0) :
+    Generated.get_trough_wells n ws = .error "ValueError" := by
+  unfold Generated.get_trough_wells
+  rw [if_pos h]
 
 end Robotools.GenFns
